@@ -559,6 +559,39 @@ def d7_relabelling(ctx):
         ctx.check(rule, key + '-offset', len(off) == 1 and unparse(off[0].value) == 'configlist[-1][0] - 1', 'offset = first number - 1', 'offset = %s' % [unparse(o.value) for o in off])
 
 
+def d7_timeslice_window(ctx, m, rule='C17-D4'):
+    """flowed energy density: the average runs over the timeslices xmin <= x0 < tmax - xmin of every block of tmax entries: every slice
+    whose bounds mention xmin and tmax has the extent tmax - 2 xmin (exclusive upper bound), whatever the offset of the block"""
+    import sympy as sp
+    f = m.func('_extract_flowed_energy_density')
+    xmin, tmax, cur = sp.symbols('xmin tmax current', integer=True, nonnegative=True)
+
+    def tr(e):
+        if isinstance(e, ast.Name):
+            return {'xmin': xmin, 'tmax': tmax}.get(e.id, sp.Symbol(e.id, integer=True))
+        if isinstance(e, ast.Constant) and isinstance(e.value, int):
+            return sp.Integer(e.value)
+        if isinstance(e, ast.BinOp) and isinstance(e.op, (ast.Add, ast.Sub, ast.Mult)):
+            a, b = tr(e.left), tr(e.right)
+            return a + b if isinstance(e.op, ast.Add) else (a - b if isinstance(e.op, ast.Sub) else a * b)
+        raise Unrecognised('bound %s' % unparse(e))
+    n = 0
+    for sl in [x for x in walk(f) if isinstance(x, ast.Slice) and x.lower is not None and x.upper is not None and x.step is None]:
+        names = {y.id for y in ast.walk(sl) if isinstance(y, ast.Name)}
+        if not {'xmin', 'tmax'} <= names:
+            continue
+        n += 1
+        key = 'input/openQCD.py:_extract_flowed_energy_density#window[%s]' % unparse(sl)[:50]
+        try:
+            ext = sp.simplify(tr(sl.upper) - tr(sl.lower) - (tmax - 2 * xmin))
+        except Unrecognised as e:
+            ctx.unrec(rule, key, str(e), m.loc(sl.lower))
+            continue
+        ctx.check(rule, key, ext == 0, 'timeslices xmin .. tmax - xmin - 1 of the block (tmax - 2 xmin slices)',
+                  'the slice %s covers tmax - 2 xmin %+d timeslices: one timeslice too many / few enters the average whenever xmin > 0' % (unparse(sl), int(ext)) if ext.is_number else 'extent differs by %s' % ext, m.loc(sl.lower))
+    ctx.floor('timeslice windows of the flowed energy density', n, 1)
+
+
 def run(ctx):
     ctx.rule('C17-D1', 'pairing discipline of names / samples / configuration lists')
     ctx.rule('C17-D2', 'directory listings are sorted numerically before positional use')
@@ -570,6 +603,7 @@ def run(ctx):
     ctx.guarded('C17-D2', 'readers@listings', d2_listings, ctx)
     ctx.guarded('C17-D3', 'readers@selection', d3_selection, ctx)
     ctx.guarded('C17-D4', 'readers@layouts', d4_layouts, ctx)
+    ctx.guarded('C17-D4', 'openQCD@timeslice-window', d7_timeslice_window, ctx, ctx.repo.mod('input.openQCD'))
     ctx.guarded('C17-D5', 'readers@derivation', d5_derivation, ctx)
     ctx.guarded('C17-D1', 'sfcf@pairing', d6_sfcf_pairing, ctx)
     ctx.guarded('C17-D5', 'openQCD@relabelling', d7_relabelling, ctx)
